@@ -1,10 +1,13 @@
 from driver import KaniUnit, VerusUnit, Harness as H
 ID = "C14"
 LEVEL = "proof"
-UNITS = [VerusUnit("c14_interp", "c14_interp", rlimit=60)]
+UNITS = [VerusUnit("c14_interp", "c14_interp", rlimit=60), VerusUnit("c14_sgmodel", "c14_sgmodel", rlimit=60)]
 EXPLANATION = ("find_nearest_index (unbounded, incl. termination), Interp1D/2D/3D::linear and Interpolator::validate_inputs extracted verbatim and verified over the reals: the cell found brackets the point, "
                "the result is the multilinear form of the surrounding grid values and lies between the smallest and largest of them, grid points reproduce the stored value (1-D), neighbouring cells agree on their "
-               "common grid line (continuity lemma), and a point outside the grid is rejected")
-NOT_DECIDED = ("InterpND (ndarray) and its agreement with 1D/2D/3D; InterpolationSpeedGradeModel (grid precomputation at unit distance, clamping of inputs); agreement of the precomputed grid with the underlying smartcore model; "
+               "common grid line (continuity lemma), and a point outside the grid is rejected; "
+               "model level (unit c14_sgmodel, verbatim linspace / InterpolationSpeedGradeModel::new / predict / Interpolator::interpolate): the grid axes are the requested linear grids, every node holds the underlying "
+               "record's rate at that node per unit of the RATE unit's own distance (grid_faithful), predict never fails for a 2-D grid: it converts the inputs to the model's units, clamps them to the grid bounds "
+               "(outside = nearest boundary) and returns the bilinear form of the cell holding that point, hence a value between that cell's smallest and largest node; at a node the value is the node's (lemma)")
+NOT_DECIDED = ("InterpND (ndarray) and its agreement with 1D/2D/3D; Interp2D::new / validate (iterator pipelines; assumed to keep its arguments); the smartcore model's own numbers and the loader; "
                "rounding in f64 (A-REAL); one-point grids (Interp*::validate accepts them; the property quantifies over bin counts >= 2)")
 ASSUMPTIONS = ["A-REAL", "Iterator::position as assumed contract", "grid axes strictly increasing with >= 2 points (precondition, established by Interp*::validate)"]
